@@ -61,7 +61,7 @@ func RunPath(w *tr.Writer, in *tr.Interner, st *PathStats, tid int, p PathPlan) 
 		if err := full.Update(keyOf(k), val, wt*S); err != nil {
 			panic(err)
 		}
-		initEv = append(initEv, []any{k, v, wt})
+		initEv = append(initEv, []any{k, string(val), wt})
 	}
 	if initEv == nil {
 		initEv = []any{}
@@ -136,6 +136,7 @@ func RunPath(w *tr.Writer, in *tr.Interner, st *PathStats, tid int, p PathPlan) 
 				wt, val = 0, nil
 			}
 			ev["w"] = wt
+			ev["v"] = string(val)
 			ev["fres"] = Guard(func() string {
 				if err := full.Update(keyOf(op.K), val, wt*S); err != nil {
 					if err == wmpt.ErrNotFound {
